@@ -9,7 +9,7 @@ class TopocentricFrame(frames.Frame):
     """Base class for ground station"""
 
     def __init__(self, name, orientation, center, mask=None):
-        self.mask = np.asarray(mask) if mask else None
+        self.mask = np.asarray(mask) if mask is not None and len(mask) else None
         super().__init__(name, orientation, center)
 
     @property
